@@ -16,9 +16,10 @@ sys.path.insert(0, os.path.join(vf.VERIF, "lib"))
 import trie_gen as tg  # noqa: E402
 
 META = {
-    "text": "17 theorems (Coq, no axioms, parametric in H) over a model of merkleProof(Compressed) and the four verifiers. "
+    "text": "19 theorems (Coq, no axioms, parametric in H) over a model of merkleProof(Compressed) and the four verifiers. "
             "FULL: completeness for present keys and for absent keys (empty subtree or foreign leaf on the path) in every non-empty trie, plain "
-            "and compressed (compress/decompress, compressed verifiers = plain verifiers on the decompressed path); the F2 repair. FULL with "
+            "and compressed (compress/decompress, compressed verifiers = plain verifiers on the decompressed path); the F2 repair; the leaf test of merkleProof compares the FULL stored key, so for query keys of any length Inclusion=true comes only with the "
+            "value stored under exactly that key. FULL with "
             "`\\/ hash_break H` (collision or DefaultLeaf shift pair): soundness of inclusion and of non-inclusion by a foreign leaf (plain and "
             "compressed), non-transplantability across key/value/root/height; statedb composition (account proof + variable proof against the "
             "storage root in the proved state bind the variable to the state root); chain level: the proof returned through name "
@@ -28,7 +29,8 @@ META = {
             "(current/historical roots) = model proofs byte for byte (toy hash); honest and single-field-corrupted proofs through real and "
             "model verifiers (verdicts equal; accepted => claim true of the map); statedb and ChainWorker answers (by address, name, special "
             "accounts, variables, plain/compressed, every root; on a live StateDB with pending writes before Update, between Update and Commit "
-            "(C11:statedb-proof-between-update-and-commit, API level only) and after, root nil = explicit root) verified like a light client by "
+            "(C11:statedb-proof-between-update-and-commit, API level only) and after, root nil = explicit root; malformed storage keys of 0..64 bytes: never Inclusion=true, absence proofs verify; the panic on keys shorter "
+            "than the walk is C11:statedb-proof-malformed-key-panic / C11:chain-query-malformed-key-panic) verified like a light client by "
             "the real and the model verifiers.",
     "note": "Trusted: Coq kernel (vm_compute sample), extraction (ExtrOcamlBasic) + OCaml driver incl. its SHA-256 (test vector each run), Go "
             "toolchain, engines in pkg/trie, state/statedb and chain (overlay build with the VM stub, irrelevant here), generators. No axioms, no "
@@ -353,8 +355,13 @@ def chain_cases(rng, n):
             if ri == 0:
                 vs["keep"] = "1"
             rounds.append({"bal": bal, "names": new, "vars": vs})
+        qv = ["x", "y", "z", "u", "w", "keep", "never"]
+        bad = [""]
+        for v in qv:
+            full = hashlib.sha256(v.encode()).digest()
+            bad += [full[:1].hex(), full[:4].hex(), full[:31].hex(), (full + b"\x01").hex(), (full + full).hex()]
         cases.append({"nacc": nacc, "contract": contract, "rounds": rounds,
-                      "qnames": pool + ["unregistered", "aergo.system", "aergo.name"], "qvars": ["x", "y", "z", "u", "w", "keep", "never"]})
+                      "qnames": pool + ["unregistered", "aergo.system", "aergo.name"], "qvars": qv, "qbadkeys": bad})
     return cases
 
 
@@ -391,10 +398,23 @@ def chain_check(ctx, exe):
         for x in o["obs"]:
             n += 1
             rep = {"case": c, "proof": {k: x[k] for k in ("label", "account", "round", "use_root", "comp", "inclusion", "key", "balance", "verified", "err")}}
+            kind = x["label"].split(":")[0]
+            if kind == "badvar":
+                klen = len(x["label"].split(":")[1]) // 2
+                if "panic" in x["err"]:
+                    fails.append(("chain-query-malformed-key-panic", "ChainWorker.Receive(GetStateQuery) panics on a storage key of %d bytes: %s" % (klen, x["err"]), rep))
+                elif x["err"]:
+                    pass        # an error is an acceptable answer to a malformed key
+                elif x["inclusion"]:
+                    fails.append(("chain-proof-malformed-key-inclusion", "GetStateQuery answers Inclusion=true for a storage key of %d bytes that was "
+                                  "never written (proof verifies: %s)" % (klen, x["verified"]), rep))
+                elif not x["verified"]:
+                    fails.append(("chain-proof-malformed-key-rejected", "the absence proof GetStateQuery returns for a storage key of %d bytes is not "
+                                  "accepted against the storage root" % klen, rep))
+                continue
             if x["err"]:
                 fails.append(("chain-proof-error", "the node returned an error instead of a proof: " + x["err"], rep))
                 continue
-            kind = x["label"].split(":")[0]
             if not x["verified"]:
                 if kind == "var" and x["root"] == "":
                     fails.append(("chain-var-proof-empty-storage", "variable proof for an account without storage is taken from the account trie "
